@@ -10,7 +10,7 @@
    interleavings is proved per finite scenario (the scenario is in the statement; the schedule is universally
    quantified, its length unbounded in the statement and bounded by the scenario): hence `_partial`. *)
 From Coq Require Import List Bool Arith.
-From SF Require Import Deploy.Model Deploy.Proofs Deploy.Inductive Deploy.Inductive2.
+From SF Require Import Deploy.Model Deploy.Proofs Deploy.Inductive Deploy.Inductive2 Deploy.Inductive3.
 Import ListNotations.
 
 (* --- return_after: a deploy request returns only after its connector's deploy() returned successfully ---
@@ -146,6 +146,23 @@ Proof.
 Qed.
 
 Print Assumptions C26_once_deploy_undeploy_partial.
+
+(* --- UNBOUNDED (fourth round): return_after for deploy AND undeploy on one eager deployment ---
+   Every request set in which every request is any sequence of deploy(d0) / undeploy(d0) operations (any
+   number of requests), any number of suspensions inside connector deploy/undeploy, EVERY list of scheduling
+   choices: a deploy that returns OK finds a registered connector whose deploy() had returned successfully.
+   Inductive invariant over executions (Deploy/Inductive3.v): registered /\ event set => deployed; at most one
+   task inside connector.deploy (pairwise over the task table); the event captured by a task inside
+   connector.undeploy is stale; (request, op index) <-> current op.  It is the clause that was false before
+   the fixes ac03fe4 and da00385 (the proof step "the undeploy body cannot run while a deployer is live" is
+   exactly what da00385 established).  `_partial` in the program shape only: no lazy deployment, no failure,
+   no wraps chain, no undeploy_all. *)
+Theorem C26_return_after_deploy_undeploy_partial : forall d reqs sched,
+  wrapper d = false -> lazy d = false -> fails d = [] -> deploy_undeploy reqs ->
+  ra_ok reqs (log (run false [d] (init reqs) sched)) = true.
+Proof. intros d reqs sched H1 H2 H3 H. exact (return_after_all_executions d H1 H2 H3 reqs H sched). Qed.
+
+Print Assumptions C26_return_after_deploy_undeploy_partial.
 
 (* --- fail_wakes is false of the current code: d1 wraps d0, d0's deploy fails; the second deploy(d1) is
    blocked for ever (no task is ready, task 1 is not done) *)
